@@ -212,7 +212,7 @@ func (buf buffer) codeForStruct(typ *an.Struct) (gen.Declaration, []string) {
 	}
 
 	implements := make([]string, 0, len(typ.Implements))
-	for _, imp := range typ.Implements {
+	for _, imp := range buf.implements[typ.Type()] {
 		if !imp.IsExported() {
 			continue
 		}
